@@ -208,6 +208,12 @@ func c09Oracle(ps *spec.Plan, sk *spec.PlanView, t *oracle.Trace) []ev.Violation
 		ba := fmt.Sprintf("B%d", bi)
 		if isTerminal(sk.Status(ba)) {
 			for _, inv := range t.Invs {
+				// The engine records a Block as Failed before it runs the Block's deferred checks, so a durably
+				// Failed Block whose deferred checks had not durably finished is not finished yet: running those
+				// checks (once) completes it and is what C10 demands; it is not a re-run.
+				if inv.Addr.Block == bi && inv.Addr.Kind == "deferred" && sk.Status(ba) == spec.Failed && !isTerminal(sk.Status(ba+".deferred")) {
+					continue
+				}
 				if inv.Addr.Block == bi {
 					add("finished-block-rerun", stName(sk.Status(ba))+","+inv.Addr.Kind, "block %d was durably %s at the crash, yet %s was invoked after restart", bi, stName(sk.Status(ba)), inv.Tag)
 					break
@@ -559,7 +565,7 @@ func crashCases(tier string) int {
 	if tier == "thorough" {
 		return crashBox + 300
 	}
-	return 24
+	return 18
 }
 
 // secondOneIn: one crash point in n is followed by every second crash during its recovery.
@@ -571,7 +577,7 @@ func secondOneIn(tier string) int {
 }
 
 func init() {
-	crashRule := "case i = one plan and EVERY prefix k of its committed write sequence (captured with sqlite.WithCapture during an uninterrupted run, replayed into a fresh in-memory store, then a normal Workstream recovers); a PRNG share of the crash points (quick 1/30, thorough 1/10) is followed by every second crash during recovery; quick: 16 PRNG samples of the bounded box + 8 random plans; thorough: the whole box (1272 shapes blocks<=2 x sequences<=2 x actions<=2 x outcome masks x tolerance{0,1} x concurrency{1,2}, plus 486 = every subset x pass/fail of the five check groups at plan and block level) + 300 random plans; plugin outcomes are a function of the action alone; distinct by plan spec"
+	crashRule := "case i = one plan and EVERY prefix k of its committed write sequence (captured with sqlite.WithCapture during an uninterrupted run, replayed into a fresh in-memory store, then a normal Workstream recovers); a PRNG share of the crash points (quick 1/30, thorough 1/10) is followed by every second crash during recovery; quick: 12 PRNG samples of the bounded box + 6 random plans; thorough: the whole box (1272 shapes blocks<=2 x sequences<=2 x actions<=2 x outcome masks x tolerance{0,1} x concurrency{1,2}, plus 486 = every subset x pass/fail of the five check groups at plan and block level) + 300 random plans; plugin outcomes are a function of the action alone; distinct by plan spec"
 	register(&Prop{
 		ID: "C09", Level: "fault_enumeration", Batch: 2, PerCaseTimeout: 300 * time.Second,
 		Rule: crashRule + "; non-trivial = the plan has at least one crash point with a durable action result", Cases: crashCases,
